@@ -43,11 +43,11 @@ pub trait Workload: Sync + Send {
     }
     /// Wall-clock watchdog per case in slow mode (seconds). Firing is a *suspicion*, re-checked in isolation.
     fn case_timeout_s(&self) -> u64 {
-        60
+        20
     }
     /// Wall-clock watchdog per chunk in fast mode (seconds).
     fn chunk_timeout_s(&self) -> u64 {
-        300
+        120
     }
 }
 
@@ -57,6 +57,11 @@ pub struct Crash {
     pub status: String,
     pub stderr_tail: String,
 }
+
+const MAX_SUSPECTS: usize = 4;
+const MAX_CRASHES: usize = 12;
+/// Only this many watchdog suspects are re-run in isolation.
+const MAX_ISOLATED: usize = 2;
 
 #[derive(Default)]
 pub struct PoolResult {
@@ -70,6 +75,10 @@ pub struct PoolResult {
     pub harness_errors: Vec<String>,
     pub evaluations: u64,
     pub wall_s: f64,
+    /// cases not run because the suspect/crash limit was reached
+    pub dropped_after_limit: u64,
+    /// suspects beyond the isolation budget (not confirmed, not a verdict)
+    pub unconfirmed_suspects: Vec<u64>,
 }
 
 struct Shared {
@@ -162,6 +171,14 @@ pub fn run_pool(wl: &dyn Workload, workload: &str, tier: &str, seed: u64, scratc
                     // Fetch a chunk.
                     let job = {
                         let mut sh = shared.lock().unwrap();
+                        // Enough watchdog suspects or crashes: stop exploring, the verdict does not need more.
+                        if sh.suspects.len() >= MAX_SUSPECTS || sh.res.crashes.len() >= MAX_CRASHES {
+                            let dropped: u64 = sh.queue.iter().map(|(lo, hi, _)| hi - lo).sum();
+                            if dropped > 0 {
+                                sh.res.dropped_after_limit += dropped;
+                                sh.queue.clear();
+                            }
+                        }
                         match sh.queue.pop_front() {
                             Some(j) => {
                                 sh.in_flight += 1;
@@ -317,7 +334,11 @@ pub fn run_pool(wl: &dyn Workload, workload: &str, tier: &str, seed: u64, scratc
     let mut sh = Arc::try_unwrap(shared).ok().unwrap().into_inner().unwrap();
     // Isolated re-run of watchdog suspects with a 10x limit.
     let suspects = std::mem::take(&mut sh.suspects);
-    for idx in suspects {
+    for (k, idx) in suspects.into_iter().enumerate() {
+        if k >= MAX_ISOLATED {
+            sh.res.unconfirmed_suspects.push(idx);
+            continue;
+        }
         let errfile = scratch.join("isolated.stderr");
         let limit = case_timeout * 10;
         match run_isolated(workload, tier, seed, idx, &errfile, limit) {
@@ -451,6 +472,8 @@ pub fn summarize(r: &PoolResult) -> Value {
         "child_crashes_attributed": r.crashes.len(),
         "hangs_confirmed": r.hangs.len(),
         "watchdog_slow_cases": r.slow_cases.len(),
+        "watchdog_suspects_not_confirmed": r.unconfirmed_suspects.len(),
+        "cases_dropped_after_suspect_limit": r.dropped_after_limit,
         "harness_errors": r.harness_errors.len(),
         "wall_s": r.wall_s,
     })
